@@ -73,6 +73,7 @@ type Stats struct {
 	Fingerprint uint64
 	Events      int64
 	Steps       int64 // scheduling points passed
+	SeqSteps    int64 // yield points passed while a single caller ran (no scheduling)
 	Switches    int64
 	Draws       int64
 	TapeUsed    []uint32
@@ -113,6 +114,7 @@ type sim struct {
 	turn      int // id of the task allowed to run; -2 = the driver goroutine
 	unlockGen int64
 	aborted   bool
+	runOver   bool           // set by the driver when every task has finished: parked task goroutines may exit
 	inline    bool           // inside Run's single-task path (the driver goroutine is the task)
 	nroot     int            // number of root tasks (slots below it are never reused)
 	joined    sync.WaitGroup // task exit -> driver happens-before edge
@@ -455,7 +457,9 @@ func Run(fns []func()) {
 			for s.turn != -2 {
 				runtime.Gosched()
 			}
+			s.runOver = true
 			s.joined.Wait()
+			s.runOver = false
 			s.tasks = nil
 		}
 		return
@@ -478,7 +482,9 @@ func Run(fns []func()) {
 	for s.turn != -2 {
 		runtime.Gosched()
 	}
+	s.runOver = true
 	s.joined.Wait()
+	s.runOver = false
 	s.tasks = nil
 }
 
@@ -539,15 +545,27 @@ func Go(f func()) {
 func taskMain(s *sim, id int, f func(), joined *sync.WaitGroup) {
 	for s.turn != id {
 		if s.aborted {
-			joined.Done()
 			s.exitTask(id)
+			for !s.runOver {
+				runtime.Gosched()
+			}
+			joined.Done()
 			return
 		}
 		runtime.Gosched()
 	}
 	runTask(f)
-	joined.Done()
 	s.exitTask(id)
+	// Stay alive (parked) until the whole run is over. ThreadSanitizer reuses
+	// the "slot" of a finished goroutine for the next one that needs a slot, and
+	// accesses made by an earlier owner of a slot are then taken to have
+	// happened before: a task that finished before another one touched the same
+	// memory would silently stop racing with it. Keeping the goroutine alive
+	// keeps its slot.
+	for !s.runOver {
+		runtime.Gosched()
+	}
+	joined.Done()
 }
 
 // runTask runs the task body and swallows the simulator's own abort signal.
@@ -647,7 +665,13 @@ func (s *sim) park(id int) {
 //go:norace
 func Yield(site string) {
 	s := cur
-	if s == nil || s.tasks == nil {
+	if s == nil {
+		return
+	}
+	if s.tasks == nil {
+		// single caller: nothing to schedule, but the work is counted so that
+		// concurrent executions can be bounded relative to sequential ones
+		s.stats.SeqSteps++
 		return
 	}
 	id := s.turn
